@@ -31,14 +31,16 @@ func Subscribe() *ControlChans {
 	return chans
 }
 
-// Unsubscribe removes the subscriber and closes its channels.
+// Unsubscribe removes the subscriber and closes its ResumeCh.
 func Unsubscribe(chans *ControlChans) {
 	manager.subscribers.Delete(chans)
 	// Close channels safely (deferred to avoid panic if already closed).
 	defer func() {
 		recover()
 	}()
-	close(chans.PauseCh)
+	// PauseCh is only written to by Pause(): a Pause() that is iterating over the subscribers
+	// while this worker leaves would send on a closed channel and panic. Leave it to the
+	// garbage collector; closing ResumeCh is what releases a Resume() waiting for this worker.
 	close(chans.ResumeCh)
 }
 
